@@ -647,6 +647,31 @@ Fixpoint clean_run (s : prov) (ops : list op) : bool :=
 (* the flavours whose dictionary keys cannot clash: not (oid_is_path and case-insensitive) *)
 Definition sane_cfg (c : cfg) : bool := negb (c_oidpath c) || c_cs c.
 
+(* The guard of the unbounded well-formedness theorem (ProvWf.v / ProvRename.v): a predicate on the
+   call given the state it meets.  It excludes
+     - a rename whose target lies strictly inside the renamed object's own subtree (finding C16-F5;
+       a rename of the root to any other path is such a rename),
+     - the removal of the root folder: delete of the root, and "/" as a rename target.
+   Nothing is asked of the keys (a path string used as an oid is allowed), of uploads, creates, queries. *)
+Definition nonroot (p : path) : bool := match p with [] => false | _ => true end.
+
+Definition guard_op (s : prov) (o : op) : bool :=
+  match o with
+  | ORename k p =>
+    nonroot p && match get_live s k with
+                 | Some (_, x) => negb (is_under (p_cfg s) (o_path x) p)
+                 | None => true
+                 end
+  | ODelete k => match get_live s k with Some (_, x) => nonroot (o_path x) | None => true end
+  | _ => true
+  end.
+
+Fixpoint guarded_run (s : prov) (ops : list op) : bool :=
+  match ops with
+  | [] => true
+  | o :: t => guard_op s o && guarded_run (fst (step s o)) t
+  end.
+
 (* ------------------------------------------------------------------ Provider.connect *)
 (* The connection_id check of Provider.connect as a state machine.  [ident] is what connect_impl
    answers for the credentials (the identity they belong to); None = connect_impl raises
